@@ -42,7 +42,11 @@ def build_config(a):
         g.set_geometry_constraints_bi_zoned_rectangle(length=a["length"], width=a["width"], b_min=a["b_min"], b_max_x=a["b_max_x"], b_max_y=a["b_max_y"])
     elif geom == "constrained":
         g.set_geometry_constraints_bi_rectangle_constrained(b_min=a["b_min"], b_max_x=a["b_max_x"], b_max_y=a["b_max_y"],
-                                                            property_boundary=[[[0, 0], [a["length"], 0], [a["length"], a["width"]], [0, a["width"]]]], no_go_boundaries=[[[5, 5], [9, 5], [9, 9], [5, 9]]])
+                                                            property_boundary=[[[0, 0], [a["length"], 0], [a["length"], a["width"]], [0, a["width"]]]],
+                                                            # no-go zones: a list of outlines, or ONE outline as shorthand, in whole metres (ints) or floats, or none
+                                                            no_go_boundaries={"nested-int": [[[5, 5], [9, 5], [9, 9], [5, 9]]], "single-int": [[5, 5], [9, 5], [9, 9], [5, 9]],
+                                                                              "single-float": [[5.0, 5.0], [9.5, 5.0], [9.5, 9.0], [5.0, 9.0]],
+                                                                              "nested-float": [[[5.0, 5.0], [9.5, 5.0], [9.5, 9.0], [5.0, 9.0]]], "none": []}[a.get("no_go", "nested-int")])
     else:
         g.set_geometry_constraints_rowwise(perimeter_spacing_ratio=a.get("perimeter"), max_spacing=a["b_max_x"] + 4, min_spacing=a["b_min"] + 4, spacing_step=0.1,
                                            max_rotation=a["rot_max"], min_rotation=a["rot_min"], rotate_step=15.0,
@@ -129,6 +133,10 @@ def _roundtrip_gen(rng):
         a["geom"] = ["near_square", "rectangle", "bi_rectangle", "bi_zoned", "constrained", "rowwise"][k - 1]
         if a["geom"] == "rowwise":
             a.update(rot_min=-90.0, rot_max=0.0, perimeter=0.8)
+    elif k <= 9:  # the forms a no-go zone may be given in: one outline as shorthand (ints / floats), no zone at all
+        a.update(geom="constrained", no_go=["single-int", "single-float", "none"][k - 7])
+    elif a["geom"] == "constrained":
+        a["no_go"] = rng.choice(["nested-int", "single-int", "single-float", "nested-float", "none"])
     return a
 
 
